@@ -81,6 +81,18 @@ func Variants(t reflect.Type, depth int) []reflect.Value {
 		}
 		fill(v.Field(i), depth-1, i)
 		out = append(out, v)
+		// scalar fields additionally with the boundary values of their kind (zero, empty, false, smallest,
+		// largest, and the first integers a float64 cannot represent)
+		ft := t.Field(i).Type
+		if ft.Kind() == reflect.Ptr {
+			for _, x := range extremes(ft.Elem()) {
+				e := reflect.New(t).Elem()
+				p := reflect.New(ft.Elem())
+				p.Elem().Set(x)
+				e.Field(i).Set(p)
+				out = append(out, e)
+			}
+		}
 		// lists additionally with length 0 and 2
 		if v.Field(i).Kind() == reflect.Slice {
 			e := reflect.New(t).Elem()
@@ -92,6 +104,45 @@ func Variants(t reflect.Type, depth int) []reflect.Value {
 		}
 	}
 	return append(out, Fill(t, depth, 0))
+}
+
+func extremes(t reflect.Type) []reflect.Value {
+	var out []reflect.Value
+	mk := func(set func(v reflect.Value)) {
+		v := reflect.New(t).Elem()
+		set(v)
+		out = append(out, v)
+	}
+	switch t.Kind() {
+	case reflect.Int, reflect.Int8, reflect.Int16, reflect.Int32, reflect.Int64:
+		bits := t.Bits()
+		max := int64(1)<<(bits-1) - 1
+		for _, x := range []int64{0, 1, max, -max - 1, max - 1, 1<<53 + 1, -(1<<53 + 1), 999999999999999999} {
+			if x >= -max-1 && x <= max {
+				x := x
+				mk(func(v reflect.Value) { v.SetInt(x) })
+			}
+		}
+	case reflect.Uint, reflect.Uint8, reflect.Uint16, reflect.Uint32, reflect.Uint64:
+		bits := t.Bits()
+		max := ^uint64(0) >> (64 - bits)
+		for _, x := range []uint64{0, max, max - 1, 1<<53 + 1} {
+			if x <= max {
+				x := x
+				mk(func(v reflect.Value) { v.SetUint(x) })
+			}
+		}
+	case reflect.Bool:
+		mk(func(v reflect.Value) { v.SetBool(false) })
+	case reflect.String:
+		mk(func(v reflect.Value) { v.SetString("") })
+	case reflect.Float32, reflect.Float64:
+		for _, x := range []float64{0, -0.5, 1e15, 1e-7} {
+			x := x
+			mk(func(v reflect.Value) { v.SetFloat(x) })
+		}
+	}
+	return out
 }
 
 // EqualModulo compares got (decoded) with want (original): absent and empty
